@@ -943,6 +943,7 @@ func runC02(c *Ctx) {
 	}
 	runC02TemporalValues(c)
 	runC02SchemaSweep(c)
+	runC02ForeignRoots(c)
 	// hand-built wrappers
 	nav := &navCtx{ids: NewIDTable()}
 	entry := &bcrpb.Bundle_Entry{Resource: &bcrpb.ContainedResource{}}
